@@ -218,6 +218,8 @@ func (w *World) VerifyFunc(key string) *Unit {
 	fr := vc.newFrame(fn, nil)
 	st := NewState()
 	cond := "true"
+	// the effect trace exists from the start, so that loops and callees that log events always havoc it
+	vc.traceCells(st)
 	// parameters
 	for i, p := range fn.Params {
 		t := p.Type()
